@@ -326,6 +326,11 @@ Section FlexHomog.
     - apply rel_rev. apply rel_place; [exact Hm | apply rel_rev; exact Hl].
     - apply rel_place; assumption.
   Qed.
+  Lemma combine_placed_rel l l' s s' : items_rel k l l' -> Forall2 (sc k) s s' -> Forall2 (placed_rel k) (combine l s) (combine l' s').
+  Proof.
+    intros Hl. revert s s'. induction Hl; intros s s' Hs; cbn [combine]; [constructor|].
+    destruct Hs; constructor; [split; assumption | apply IHHl; assumption].
+  Qed.
 End FlexHomog.
 
 (* ---- the scaled inputs are related to the originals *)
